@@ -242,16 +242,19 @@ def shard(ctx):
     thorough = ctx.tier == "thorough"
     drive(ctx, unit_case(), lambda c: run_unit(ctx, c), 60000 if thorough else 4000, tag="unit")
     codes = model.iso3_list() + ["WOR"]
-    codes = [("SWZ" if c == "SWT" else c) for c in codes]
+    # (Eswatini is SWT in the model's country table - the code the integrated model passes - and SWZ in the FAO tables: both are drawn)
+    codes = codes + ["SWZ"]
     drive(ctx, herd_case(codes), lambda c: run_herd(ctx, c), 700 if thorough else 60, shrink=thorough, tag="herd")
-    # the world aggregate has every species: always run it at partial supply
+    # the world aggregate has every species: always run it at partial supply; so are the two spellings of Eswatini (the only row whose
+    # code differs between the model's country table and the FAO tables)
     from vlib.harness import Violation
-    for i, s_ in enumerate(herd.STRATEGIES):
+    fixed = [("WOR", s_) for s_ in herd.STRATEGIES] + [("SWT", herd.STRATEGIES[0]), ("SWZ", herd.STRATEGIES[0])]
+    for i, (code, s_) in enumerate(fixed):
         if i % ctx.nshards != ctx.shard:
             continue
         ctx.count()
         try:
-            run_herd(ctx, dict(code="WOR", strategy=s_, n=24, feed_mult=[0.3] * 24, grass_mult=[0.6] * 24))
+            run_herd(ctx, dict(code=code, strategy=s_, n=24, feed_mult=[0.3] * 24, grass_mult=[0.6] * 24))
         except Violation as v:
             ctx.record_violation(v)
 
